@@ -115,7 +115,7 @@ func check(c *Case) (string, string) {
 			return "document/parse", fmt.Sprintf("generated document does not parse: %v\n%s", err, text)
 		}
 		iterable = ps
-	case "add", "nil-entities":
+	case "add", "nil-entities", "json":
 		ps := cedar.NewPolicySet()
 		order := c.Order
 		if len(order) != n {
@@ -127,6 +127,17 @@ func check(c *Case) (string, string) {
 		for _, i := range order {
 			if !ps.Add(cedar.PolicyID(ids[i]), conv.ToPolicy(c.Policies[i])) {
 				return "add/return", fmt.Sprintf("Add(%q) reported an existing policy in a fresh set", ids[i])
+			}
+		}
+		if c.Loader == "json" {
+			// the set as read back from its JSON document (ids survive, positions do not)
+			// (whether every set survives the JSON codec is C09's subject: a set that does not - e.g. one calling an
+			// unknown function - is used as built)
+			var back cedar.PolicySet
+			if b, err := ps.MarshalJSON(); err == nil && back.UnmarshalJSON(b) == nil {
+				ps = &back
+			} else {
+				ev.R.Label("json-loader-unavailable", 1)
 			}
 		}
 		iterable = ps
@@ -439,7 +450,7 @@ func TestDecisionTable(t *testing.T) {
 		if len(sel) == 0 {
 			cell = append(cell, "cell:empty-set")
 		}
-		for _, loader := range []string{"document", "stream", "add", "iterator", "iterator-dup"} {
+		for _, loader := range []string{"document", "stream", "add", "json", "iterator", "iterator-dup"} {
 			cc := c
 			cc.Loader = loader
 			if loader == "add" {
@@ -457,7 +468,7 @@ func TestDecisionTable(t *testing.T) {
 		}
 	})
 	if ev.First() {
-		ev.R.Space(fmt.Sprintf("multisets of <= %d of the 14 policy kinds (effect x outcome) x 5 loaders", maxSize), total*5)
+		ev.R.Space(fmt.Sprintf("multisets of <= %d of the 14 policy kinds (effect x outcome) x 6 loaders", maxSize), total*6)
 	}
 }
 
@@ -506,7 +517,7 @@ func genCase(rt *rapid.T) *Case {
 		}
 		c.World2 = &w2
 	}
-	c.Loader = rapid.SampledFrom([]string{"document", "stream", "add", "iterator", "iterator-dup", "nil-entities"}).Draw(rt, "loader")
+	c.Loader = rapid.SampledFrom([]string{"document", "stream", "add", "json", "iterator", "iterator-dup", "nil-entities"}).Draw(rt, "loader")
 	if c.Loader == "add" || c.Loader == "nil-entities" {
 		idx := make([]int, n)
 		for i := range idx {
